@@ -28,6 +28,7 @@ class Family:
         self.hard_s = hard_s
         self.structural = structural  # only structural goals: no solver-pruned case splits during execution
         self.frame = frame
+        self.abstract = False  # decode operands into abstraction symbols first (fallback: plain expressions)
 
 
 class FamilyTimeout(BaseException):
@@ -235,6 +236,38 @@ def replay_failing(family, ctx, failing, candidates, seed):
 
 
 def run_family(family, opts):
+    """primary encoding first; an obligation family may carry an alternative encoding of the same
+    obligations (e.g. without operand abstraction) that is tried when the first one is undecided"""
+    from spec import model as _spec
+
+    if getattr(family, "abstract", False) and getattr(family, "alt_fn", None) is None:
+        # first attempt with operand abstraction, second (same obligations) without
+        family.alt_fn = family.fn
+        family._abstract_first = True
+    _spec.ABSTRACT_RUN = "pending" if getattr(family, "_abstract_first", False) else None
+    try:
+        res = _run_family(family, opts)
+    finally:
+        _spec.ABSTRACT_RUN = None
+    alt = getattr(family, "alt_fn", None)
+    if alt is not None and res.get("status") == "inconclusive":
+        f2 = Family(family.key, alt, defd=family.defd, tier=family.tier, functions=family.functions, note=family.note,
+                    timeout_ms=family.timeout_ms, hard_s=family.hard_s, structural=family.structural, frame=family.frame)
+        if getattr(family, "hunt", False):
+            f2.hunt = True
+        res2 = _run_family(f2, opts)
+        res2["first_encoding"] = {"status": res.get("status"), "reason": res.get("reason"), "wall_s": res.get("wall_s")}
+        res2["wall_s"] = round(res2.get("wall_s", 0) + res.get("wall_s", 0), 3)
+        for k in ("queries", "solver_s", "cegar_iters", "prune_q", "merge_q"):
+            if k in res.get("stats", {}) and k in res2.get("stats", {}):
+                res2["stats"][k] = round(res2["stats"][k] + res["stats"][k], 3)
+        if res2.get("status") in ("proved", "violation"):
+            return res2
+        return res2 if res2.get("status") == "inconclusive" else res
+    return res
+
+
+def _run_family(family, opts):
     t0 = time.time()
     core.GLOBAL_STATS = core.Stats()
     timeout_ms = family.timeout_ms or opts.get("timeout_ms", 10000)
@@ -258,6 +291,10 @@ def run_family(family, opts):
     models = []
     try:
         R = SymRun(ctx)
+        from spec import model as _spec
+
+        if _spec.ABSTRACT_RUN == "pending":
+            _spec.ABSTRACT_RUN = R
         try:
             goals = family.fn(R)
         except Unsupported as e:
@@ -315,8 +352,26 @@ def run_family(family, opts):
                 fv = R.frame_violations()
                 allgoals.append(("frame:operands-unmodified", CGoal(not fv, "; ".join(fv)[:300]), None))
             n_sym = 0
+            outside = set(opts.get("outside_goals", {}).get(family.key, ()))
+            hunt_goals = bool(opts.get("hunt_outside_goals"))
+            hunt_failing = {}
             for label, g, upto in allgoals:
                 tg = time.time()
+                if label in outside and not (isinstance(g, CGoal) or isinstance(g, bool)):
+                    # undecided on the pinned tree within the budget: not claimed (bounds.json -> outside_goals)
+                    if not hunt_goals:
+                        res["goals"].append({"label": label, "verdict": "outside-claim", "kind": g.kind})
+                        continue
+                    v, m, info = (ctx.prove(g.form, 3000, upto=upto, kind="hunt") if upto is not None else discharge(ctx, g, 3000))
+                    res["goals"].append({"label": label, "verdict": "outside-claim", "hunt": v, "kind": g.kind})
+                    if v != "unsat":
+                        hunt_failing[label] = {"verdict": v}
+                        if m is not None:
+                            try:
+                                models.append(run.model_assignment(ctx, m))
+                            except Exception:
+                                pass
+                    continue
                 if isinstance(g, CGoal) or isinstance(g, bool):
                     ok = bool(g)
                     res["goals"].append({"label": label, "verdict": "concrete-true" if ok else "concrete-false", "kind": "structural"})
@@ -339,8 +394,21 @@ def run_family(family, opts):
                             pass
                 if "sample" not in res and g.kind != "defd":
                     res["sample"] = {"label": label, "goal": str(g.form)[:400], "verdict": v}
+            if not failing and hunt_failing:
+                inputs = {n: k for n, (_, k) in ctx.inputs.items()}
+                import itertools as _it2
+
+                cands = _it2.chain([("solver-model", a) for a in models], [("stratified", a) for a in run.stratified_assignments(inputs, 16, seed)],
+                                   (("random", a) for a in run.random_assignments(inputs, 200, seed)))
+                viol = replay_failing(family, ctx, hunt_failing, cands, seed)
+                if viol is not None:
+                    res["status"] = "violation"
+                    res["violation"] = viol
+                    failing = {"__hunt__": {}}
             if not failing:
                 res["status"] = "proved"
+            elif res.get("status") == "violation":
+                pass
             else:
                 inputs = {n: k for n, (_, k) in ctx.inputs.items()}
                 cands = [("solver-model", a) for a in models]
